@@ -56,6 +56,9 @@ WHITELIST = {
                        "FRESH_METHODS are known not to write through the references the object holds",
     "external_field_branches": "propagation with external fields (has_Efield / has_EField) is not part of Model.C15: those branches "
                                "are pruned for every shape",
+    "user_callbacks": "the caller's own function (hfce of StateVectorPropagator.propagate): it is handed the Hamiltonian matrix "
+                      "and the current vector and is assumed to return a new matrix without writing its arguments - what it does is "
+                      "the caller's code, not the package's",
     "logging": "print / debug / qr.log_* / printlog only write to the log",
 }
 PURE_PREFIXES = ("numpy.", "scipy.", "np.", "math.", "time.")
@@ -82,6 +85,7 @@ READER_METHODS = {"nearest", "is_subset_of", "copy", "convert_2_internal_u", "co
                   "convert_2_current_u", "unit_repr", "locate"}
 FRESH_METHODS = {"secularize", "convert_2_tensor", "set_rwa", "remove_cutoff_coupling", "propagate", "append", "seek", "setDtRefinement"}
 CONTEXTS = {"eigenbasis_of", "energy_units"}
+CALLBACKS = {"hfce"}      # parameters that are the caller's functions
 
 
 # ----------------------------------------------------------------------------------------------- class index
@@ -387,6 +391,9 @@ class Analysis:
             return frozenset([FRESH])
         if isinstance(f, ast.Name) and f.id in CONTEXTS:
             self.notes.add(f.id)
+            return frozenset([FRESH])
+        if isinstance(f, ast.Name) and f.id in CALLBACKS and f.id in st.env and not kws:
+            self.notes.add("user_callbacks")
             return frozenset([FRESH])
         # constructors
         if isinstance(f, ast.Name) and f.id == "Manager" and f.id not in st.env:
@@ -787,9 +794,11 @@ def dm_shape(k, big):
                 rec={"propagate": {"Nref > 1": False}})
 
 
-def sv_shape():
+def sv_shape(hfce=False, nonlinear=False):
+    # the three branches of StateVectorPropagator.propagate (plain, hfce, hfce + nonlinear) are one shape of the model: the
+    # same objects are shared, and none of them may be written
     return dict(coq="SvProp", cls="StateVectorPropagator", meth="propagate", args={"psii"},
-                conds={"hfce is not None": False}, roles={("self", ()): "sv", ("self", ("ham",)): "ham", ("self", ("timeaxis",)): "time",
+                conds={"hfce is not None": hfce, "nonlinear": nonlinear}, roles={("self", ()): "sv", ("self", ("ham",)): "ham", ("self", ("timeaxis",)): "time",
                                                           ("arg:psii", ()): "psi"},
                 types={("self", ()): "StateVectorPropagator", ("self", ("ham",)): "Hamiltonian"})
 
@@ -849,7 +858,7 @@ def rate_shape():
 def all_shapes():
     out = [relt_shape(k) for k in TK if k != "LF"] + [relt_shape("CRF", fail=True), rate_shape()]
     out += [dm_shape(k, b) for k in PK for b in (False, True)]
-    out += [sv_shape(), pop_shape()] + [heom_shape(r, f) for r in (False, True) for f in (False, True)]
+    out += [sv_shape(), sv_shape(True, False), sv_shape(True, True), pop_shape()] + [heom_shape(r, f) for r in (False, True) for f in (False, True)]
     out += [eso_shape(k) for k in EK]
     return out
 
